@@ -94,6 +94,11 @@ def mk_payload(x):
         return x[2][0]
     if k == "some":
         return x[1]
+    if k == "call" and isinstance(x[1], str) and len(x[2]) == 2 and core.callee_base(x[1]).startswith("core::num::") and \
+            core.callee_base(x[1]).split("::")[-1] in ("checked_add", "checked_sub", "checked_mul"):
+        # the Some payload of a.checked_op(b) is a op b
+        op = {"checked_add": "Add", "checked_sub": "Sub", "checked_mul": "Mul"}[core.callee_base(x[1]).split("::")[-1]]
+        return core.norm(("bin", op, x[2][0], x[2][1]))
     if k == "call" and isinstance(x[1], str) and core.callee_base(x[1]) == "core::slice::get" and len(x[2]) == 2:
         # the Some payload of c.get(i) is the element c[i]
         return ("elem", x[2][0], x[2][1])
